@@ -88,7 +88,7 @@ theorem find_updTree (trees : List TreeImg) (k : Nat) (f : TreeImg → TreeImg) 
 
 /-! ### the class -/
 
-structure CG (p0 : PImg) (live : Nat) (allowed covered : List Nat) (lo nd : Nat) (p : PImg) : Prop where
+structure CG (p0 : PImg) (live : Nat) (allowed covered : List Nat) (lv : LiveP) (lo nd : Nat) (p : PImg) : Prop where
   i2e : p.i2e = p0.i2e
   cat : p.cat = p0.cat
   idx : p.idx = p0.idx
@@ -100,10 +100,10 @@ structure CG (p0 : PImg) (live : Nat) (allowed covered : List Nat) (lo nd : Nat)
   segOld : ∀ k, k < lo → segFind p k = segFind p0 k
   segKeys : ∀ s ∈ p.segs, s.key < nd
   treeKeys : ∀ t ∈ p.trees, t.key < nd
-  treeLive : live ≠ 0 → ∃ t, treeFind p live = some t ∧ TreeOK allowed covered t
+  treeLive : live ≠ 0 → ∃ t last, treeFind p live = some t ∧ LiveOK allowed covered lv t last
 
 /-- operations that keep an image inside the class -/
-def CEff (p0 : PImg) (live : Nat) (allowed covered : List Nat) (lo nd : Nat) : PEff → Prop
+def CEff (p0 : PImg) (live : Nat) (allowed covered : List Nat) (lv : LiveP) (lo nd : Nat) : PEff → Prop
   | .setLen _ => True
   | .bitmap top => nd ≤ top
   | .stats => True
@@ -111,19 +111,42 @@ def CEff (p0 : PImg) (live : Nat) (allowed covered : List Nat) (lo nd : Nat) : P
   | .segPart k _ _ _ => lo ≤ k ∧ k < nd
   | .treeNew k => k ≠ live ∧ k < nd
   | .blob _ _ => True
-  | .leaf k i es sib _ => k ≠ live ∨ (i = 0 ∧ sib = false ∧
-      ∃ xs, es = xs.map some ∧ SortedNat xs ∧ (∀ q ∈ xs, q ∈ allowed) ∧ ∀ q ∈ covered, q ∈ xs)
+  | .leaf k i es sib _ => k ≠ live ∨ (i = lv.Xi.length ∧ sib = false ∧
+      ∃ ys, es = ys.map some ∧ SortedNat (lv.Xi ++ [ys]).flatten ∧ (lv.Xi ≠ [] → ys ≠ [] ∧ ys.headD 0 = lv.hd) ∧
+        (∀ q ∈ ys, q ∈ allowed) ∧ ∀ q ∈ covered, q ∈ (lv.Xi ++ [ys]).flatten)
   | .inode k _ _ => k ≠ live
   | _ => False
 
-theorem treeOK_blob {allowed covered : List Nat} {t : TreeImg} (h : TreeOK allowed covered t) (q : Nat) :
-    TreeOK allowed covered { t with blobs := q :: t.blobs } := by
-  obtain ⟨xs, pid, h1, h2, h3, h4⟩ := h.shape
-  exact ⟨⟨xs, pid, h1, h2, h3, fun q' hq' => ⟨(h4 q' hq').1, List.mem_cons_of_mem _ (h4 q' hq').2⟩⟩, h.noinode⟩
+theorem treeOK_blob {allowed covered : List Nat} {top : Bool} {t : TreeImg} (h : TreeOK allowed covered top t) (q : Nat) :
+    TreeOK allowed covered top { t with blobs := q :: t.blobs } := by
+  obtain ⟨X, hs, h3, h4⟩ := h.shape
+  exact ⟨⟨X, ⟨hs.ne, hs.leaves, hs.sorted, hs.tail, hs.inode⟩, h3, fun q' hq' => ⟨(h4 q' hq').1, List.mem_cons_of_mem _ (h4 q' hq').2⟩⟩⟩
 
-theorem cg_applyEff {p0 : PImg} {live lo nd : Nat} {allowed covered : List Nat} {p : PImg} {e : PEff}
-    (h : CG p0 live allowed covered lo nd p) (he : CEff p0 live allowed covered lo nd e) :
-    CG p0 live allowed covered lo nd (applyEff e p) := by
+theorem liveOK_blob {allowed covered : List Nat} {lv : LiveP} {t : TreeImg} {last : List Nat} (h : LiveOK allowed covered lv t last) (q : Nat) :
+    LiveOK allowed covered lv { t with blobs := q :: t.blobs } last :=
+  ⟨⟨h.shape.ne, h.shape.leaves, h.shape.sorted, h.shape.tail, h.shape.inode⟩, h.hd, h.allowed,
+    fun q' hq' => ⟨(h.covered q' hq').1, List.mem_cons_of_mem _ (h.covered q' hq').2⟩⟩
+
+/-- a tree that consists of one leaf entered directly -/
+theorem treeShape_single (t : TreeImg) (xs : List Nat) (pid : Nat) (hl : t.leaves = [⟨xs.map some, false, pid⟩])
+    (hs : SortedNat xs) (hi : t.inode = none) : TreeShape t [xs] false :=
+  ⟨by simp, ⟨[pid], by simp [hl, mkLeaves]⟩, by simpa using hs, by simp, by simp [hi]⟩
+
+theorem treeShape_single_inv {t : TreeImg} {X : List (List Nat)} (h : TreeShape t X false) :
+    ∃ xs pid, X = [xs] ∧ t.leaves = [⟨xs.map some, false, pid⟩] ∧ SortedNat xs ∧ t.inode = none := by
+  obtain ⟨pids, hl⟩ := h.leaves
+  have hin := h.inode
+  simp only [Bool.false_eq_true, if_false] at hin
+  cases X with
+  | nil => exact absurd rfl h.ne
+  | cons xs Y =>
+    have hY : Y = [] := by simpa using hin.2
+    subst hY
+    exact ⟨xs, pids.headD 0, rfl, by simp [hl, mkLeaves], by simpa using h.sorted, hin.1⟩
+
+theorem cg_applyEff {p0 : PImg} {live lo nd : Nat} {allowed covered : List Nat} {lv : LiveP} {p : PImg} {e : PEff}
+    (h : CG p0 live allowed covered lv lo nd p) (he : CEff p0 live allowed covered lv lo nd e) :
+    CG p0 live allowed covered lv lo nd (applyEff e p) := by
   cases e <;> simp only [CEff] at he
   case setLen n => exact { h with len := Nat.le_trans h.len (Nat.le_max_left _ _) }
   case bitmap top => exact { h with bmlo := he }
@@ -142,42 +165,47 @@ theorem cg_applyEff {p0 : PImg} {live lo nd : Nat} {allowed covered : List Nat} 
       · exact he.2
       · exact h.treeKeys t ht
     · intro hl
-      obtain ⟨t, hf, hok⟩ := h.treeLive hl
-      refine ⟨t, ?_, hok⟩
+      obtain ⟨t, last, hf, hok⟩ := h.treeLive hl
+      refine ⟨t, last, ?_, hok⟩
       have : (k == live) = false := by simpa using he.1
       simpa [treeFind, applyEff, List.find?_cons, this] using hf
   case blob k q =>
     refine { h with treeKeys := keys_updTree p.trees k (fun t => { t with blobs := q :: t.blobs }) (fun _ => rfl) _ h.treeKeys, treeLive := ?_ }
     intro hl
-    obtain ⟨t, hf, hok⟩ := h.treeLive hl
+    obtain ⟨t, last, hf, hok⟩ := h.treeLive hl
     have := find_updTree p.trees k (fun t => { t with blobs := q :: t.blobs }) (fun _ => rfl) live
     simp only [treeFind] at hf
     rw [hf] at this
     by_cases hk : t.key = k
-    · exact ⟨_, by simpa [treeFind, applyEff, hk] using this, treeOK_blob hok q⟩
-    · exact ⟨t, by simpa [treeFind, applyEff, hk] using this, hok⟩
+    · exact ⟨_, last, by simpa [treeFind, applyEff, hk] using this, liveOK_blob hok q⟩
+    · exact ⟨t, last, by simpa [treeFind, applyEff, hk] using this, hok⟩
   case leaf k i es sib pid =>
     refine { h with treeKeys := keys_updTree p.trees k (fun t => { t with leaves := setLeaf t.leaves i ⟨es, sib, pid⟩ }) (fun _ => rfl) _ h.treeKeys, treeLive := ?_ }
     intro hl
-    obtain ⟨t, hf, hok⟩ := h.treeLive hl
+    obtain ⟨t, last, hf, hok⟩ := h.treeLive hl
     have htk : t.key = live := by
       have := List.find?_some hf
       simpa using this
     have := find_updTree p.trees k (fun t => { t with leaves := setLeaf t.leaves i ⟨es, sib, pid⟩ }) (fun _ => rfl) live
     simp only [treeFind] at hf
     rw [hf] at this
-    rcases he with hne | ⟨rfl, rfl, xs, rfl, hs, hal, hcov⟩
+    rcases he with hne | ⟨rfl, rfl, ys, rfl, hs, hhd, hal, hcov⟩
     · have hk : ¬ t.key = k := by rw [htk]; exact fun h' => hne h'.symm
-      exact ⟨t, by simpa [treeFind, applyEff, hk] using this, hok⟩
+      exact ⟨t, last, by simpa [treeFind, applyEff, hk] using this, hok⟩
     · by_cases hk : t.key = k
-      · refine ⟨_, by simpa [treeFind, applyEff, hk] using this, ?_⟩
-        obtain ⟨xs0, pid0, h1, _, _, h4⟩ := hok.shape
-        refine ⟨⟨xs, pid, by simp [h1, setLeaf], hs, hal, fun q hq => ⟨hcov q hq, (h4 q hq).2⟩⟩, hok.noinode⟩
-      · exact ⟨t, by simpa [treeFind, applyEff, hk] using this, hok⟩
+      · refine ⟨_, ys, by simpa [treeFind, applyEff, hk] using this, ?_⟩
+        refine ⟨treeShape_setLast hok.shape pid rfl rfl hs (fun hx => ⟨(hhd hx).1, by rw [(hhd hx).2, hok.hd hx]⟩),
+          fun hx => (hhd hx).2, ?_, fun q hq => ⟨hcov q hq, (hok.covered q hq).2⟩⟩
+        intro q hq
+        simp only [List.flatten_append, List.flatten_cons, List.flatten_nil, List.append_nil, List.mem_append] at hq
+        rcases hq with hq | hq
+        · exact hok.allowed q (by simp [hq])
+        · exact hal q hq
+      · exact ⟨t, last, by simpa [treeFind, applyEff, hk] using this, hok⟩
   case inode k seps pid =>
     refine { h with treeKeys := keys_updTree p.trees k (fun t => { t with inode := some seps, inodePid := pid }) (fun _ => rfl) _ h.treeKeys, treeLive := ?_ }
     intro hl
-    obtain ⟨t, hf, hok⟩ := h.treeLive hl
+    obtain ⟨t, last, hf, hok⟩ := h.treeLive hl
     have htk : t.key = live := by
       have := List.find?_some hf
       simpa using this
@@ -185,25 +213,27 @@ theorem cg_applyEff {p0 : PImg} {live lo nd : Nat} {allowed covered : List Nat} 
     simp only [treeFind] at hf
     rw [hf] at this
     have hk : ¬ t.key = k := by rw [htk]; exact fun h' => he h'.symm
-    exact ⟨t, by simpa [treeFind, applyEff, hk] using this, hok⟩
+    exact ⟨t, last, by simpa [treeFind, applyEff, hk] using this, hok⟩
 
-theorem ceff_torn {p0 : PImg} {live lo nd : Nat} {allowed covered : List Nat} {p : PImg} {e e' : PEff}
-    (he : CEff p0 live allowed covered lo nd e) (hl : isLiveLeaf live e = false) (ht : tornEff p e = some e') :
-    CEff p0 live allowed covered lo nd e' := by
+theorem ceff_torn {p0 : PImg} {live lo nd : Nat} {allowed covered : List Nat} {lv : LiveP} {p : PImg} {e e' : PEff}
+    (he : CEff p0 live allowed covered lv lo nd e) (hl : isLiveLeaf live e = false) (ht : tornEff p e = some e') :
+    CEff p0 live allowed covered lv lo nd e' := by
   cases e <;> simp only [CEff] at he <;> simp only [tornEff, Option.some.injEq] at ht <;> try (subst ht; simpa [CEff] using he)
   case leaf k i es sib pid =>
     have hne : k ≠ live := by simpa [isLiveLeaf] using hl
     split at ht <;> (try split at ht) <;> simp only [Option.some.injEq] at ht <;> subst ht <;> exact Or.inl hne
+  case inode k seps pid =>
+    split at ht <;> simp only [Option.some.injEq] at ht <;> subst ht <;> exact he
 
 /-- steps that keep every image of the class -/
-def CStepOK (p0 : PImg) (live : Nat) (allowed covered : List Nat) (lo nd : Nat) : Step → Prop
-  | .pg e _ => CEff p0 live allowed covered lo nd e
+def CStepOK (p0 : PImg) (live : Nat) (allowed covered : List Nat) (lv : LiveP) (lo nd : Nat) : Step → Prop
+  | .pg e _ => CEff p0 live allowed covered lv lo nd e
   | .ps => True
   | _ => False
 
-theorem allImgsL_cstep {p0 : PImg} {live lo nd : Nat} {allowed covered : List Nat} (fs : FS) (s : Step)
-    (h : AllImgsL live fs (CG p0 live allowed covered lo nd)) (hs : CStepOK p0 live allowed covered lo nd s) :
-    AllImgsL live (fs.step s) (CG p0 live allowed covered lo nd) := by
+theorem allImgsL_cstep {p0 : PImg} {live lo nd : Nat} {allowed covered : List Nat} {lv : LiveP} (fs : FS) (s : Step)
+    (h : AllImgsL live fs (CG p0 live allowed covered lv lo nd)) (hs : CStepOK p0 live allowed covered lv lo nd s) :
+    AllImgsL live (fs.step s) (CG p0 live allowed covered lv lo nd) := by
   cases s <;> simp only [CStepOK] at hs
   case pg e pid =>
     apply allImgsL_pg live fs _ e pid h
@@ -211,29 +241,29 @@ theorem allImgsL_cstep {p0 : PImg} {live lo nd : Nat} {allowed covered : List Na
     exact ⟨cg_applyEff hp hs, fun hl e' ht => cg_applyEff hp (ceff_torn hs hl ht)⟩
   case ps => exact allImgsL_ps live fs _ (allImgsL_pv live fs _ h)
 
-theorem cstep_block {p0 : PImg} {live lo nd : Nat} {allowed covered : List Nat} (S : List Step) :
-    ∀ (fs : FS), AllImgsL live fs (CG p0 live allowed covered lo nd) → (∀ s ∈ S, CStepOK p0 live allowed covered lo nd s) →
-      SafeAlong (fun fs => AllImgsL live fs (CG p0 live allowed covered lo nd)) fs S := by
+theorem cstep_block {p0 : PImg} {live lo nd : Nat} {allowed covered : List Nat} {lv : LiveP} (S : List Step) :
+    ∀ (fs : FS), AllImgsL live fs (CG p0 live allowed covered lv lo nd) → (∀ s ∈ S, CStepOK p0 live allowed covered lv lo nd s) →
+      SafeAlong (fun fs => AllImgsL live fs (CG p0 live allowed covered lv lo nd)) fs S := by
   induction S with
   | nil => intro fs h _; exact safeAlong_nil h
   | cons s S ih =>
     intro fs h hs
     exact safeAlong_cons h (ih _ (allImgsL_cstep fs s h (hs s (by simp))) (fun s' hs' => hs s' (by simp [hs'])))
 
-theorem cstep_pagerStep {p0 : PImg} {live lo nd : Nat} {allowed covered : List Nat} {s : Step}
-    (h : CStepOK p0 live allowed covered lo nd s) : PagerStep s := by
+theorem cstep_pagerStep {p0 : PImg} {live lo nd : Nat} {allowed covered : List Nat} {lv : LiveP} {s : Step}
+    (h : CStepOK p0 live allowed covered lv lo nd s) : PagerStep s := by
   cases s <;> simp [CStepOK] at h <;> trivial
 
-theorem CG.raise {p0 : PImg} {live lo nd nd' : Nat} {allowed covered : List Nat} {p : PImg}
-    (h : CG p0 live allowed covered lo nd p) (h1 : nd ≤ nd') (h2 : nd' ≤ p.hdr.nextPage) (h3 : nd' ≤ p.bm) :
-    CG p0 live allowed covered lo nd' p :=
+theorem CG.raise {p0 : PImg} {live lo nd nd' : Nat} {allowed covered : List Nat} {lv : LiveP} {p : PImg}
+    (h : CG p0 live allowed covered lv lo nd p) (h1 : nd ≤ nd') (h2 : nd' ≤ p.hdr.nextPage) (h3 : nd' ≤ p.bm) :
+    CG p0 live allowed covered lv lo nd' p :=
   { h with lond := Nat.le_trans h.lond h1, np := h2, bmlo := h3, segKeys := fun s hs => Nat.lt_of_lt_of_le (h.segKeys s hs) h1,
            treeKeys := fun t ht => Nat.lt_of_lt_of_le (h.treeKeys t ht) h1 }
 
 /-! ### what the class guarantees -/
 
-theorem CG.pagerOK {p0 : PImg} {live lo nd : Nat} {allowed covered : List Nat} {p : PImg} {N : List Nat} {c : Nat}
-    (h : CG p0 live allowed covered lo nd p) (h0 : PagerOK N c p0) (h2 : 2 ≤ lo) : PagerOK N c p where
+theorem CG.pagerOK {p0 : PImg} {live lo nd : Nat} {allowed covered : List Nat} {lv : LiveP} {p : PImg} {N : List Nat} {c : Nat}
+    (h : CG p0 live allowed covered lv lo nd p) (h0 : PagerOK N c p0) (h2 : 2 ≤ lo) : PagerOK N c p where
   booted :=
     { init := by rw [h.hdr.init]; exact h0.booted.init
       len := Nat.le_trans h0.booted.len h.len
@@ -266,8 +296,8 @@ theorem StoreOK.segLt {T : List Tx} {cs : List CTx} {p : PImg} (h : StoreOK T cs
   rw [← h2]
   exact h.segKeys s h1
 
-theorem CG.storeOK {p0 : PImg} {lo nd : Nat} {allowed covered : List Nat} {p : PImg} {T : List Tx} {cs : List CTx}
-    (h : CG p0 (scan cs).proot allowed covered lo nd p) (h0 : StoreOK T cs p0) (hlo : min p0.bm p0.hdr.nextPage ≤ lo)
+theorem CG.storeOK {p0 : PImg} {lo nd : Nat} {allowed covered : List Nat} {lv : LiveP} {p : PImg} {T : List Tx} {cs : List CTx}
+    (h : CG p0 (scan cs).proot allowed covered lv lo nd p) (hlv : lv.top = (scan cs).ptop) (h0 : StoreOK T cs p0) (hlo : min p0.bm p0.hdr.nextPage ≤ lo)
     (hal : allowed = allProps T)
     (h1 : ∀ q ∈ allProps T, q ∈ (logRuns (scan cs).ckpt cs).flatMap (·.props) ∨ q ∈ covered)
     (h2 : (scan cs).proot = 0 → covered = []) : StoreOK T cs p where
@@ -284,7 +314,9 @@ theorem CG.storeOK {p0 : PImg} {lo nd : Nat} {allowed covered : List Nat} {p : P
       simp only [segEdges, h.segOld k (by have := h0.segLt k hk; omega)]
     intro e; rw [this]; exact h0.edges e
   runProps := h0.runProps
-  ptop := h0.ptop
-  props := ⟨covered, h1, h2, fun hne => by subst hal; exact h.treeLive hne⟩
+  props := ⟨covered, h1, h2, fun hne => by
+    subst hal
+    obtain ⟨t, last, hf, hok⟩ := h.treeLive hne
+    exact ⟨t, hf, by rw [← hlv]; exact hok.treeOK⟩⟩
 
 end Nervus.Crash
